@@ -68,8 +68,13 @@ func Load(cfg LoadConfig) (*Loaded, error) {
 	prog.Build()
 	ld := &Loaded{Prog: prog, Pkgs: pkgs, SSAPkgs: spkgs, Harness: map[string]*ssa.Function{}, Stubs: map[string]*ssa.Function{}, Opts: map[string]map[string]string{}}
 	// discover harness functions & directives
-	for i, p := range pkgs {
-		sp := spkgs[i]
+	var allPkgs []*packages.Package
+	packages.Visit(pkgs, nil, func(p *packages.Package) { allPkgs = append(allPkgs, p) })
+	for _, p := range allPkgs {
+		if p.Types == nil {
+			continue
+		}
+		sp := prog.Package(p.Types)
 		if sp == nil {
 			continue
 		}
